@@ -311,10 +311,47 @@ def normalize(text):
     return _TIME_RE.sub('N.NNN seconds', text)
 
 
+_BYSTANDER = None
+
+
+def _bystander(cmd):
+    """Ask a long-lived thread of this process (started before any run) for
+    the trace / profile functions active IN THAT THREAD, or make it drop them."""
+    global _BYSTANDER
+    import queue
+    if _BYSTANDER is None or not _BYSTANDER[0].is_alive():
+        req, rep = queue.Queue(), queue.Queue()
+
+        def loop():
+            while True:
+                c = req.get()
+                if c == 'reset':
+                    sys.settrace(None)
+                    sys.setprofile(None)
+                rep.put((repr(sys.gettrace()), repr(sys.getprofile())))
+        th = _real_threading.Thread(target=loop, name='vt-bystander', daemon=True)
+        th.start()
+        _BYSTANDER = (th, req, rep)
+    _BYSTANDER[1].put(cmd)
+    return _BYSTANDER[2].get(timeout=30)
+
+
+def _monitoring_tools():
+    mon = getattr(sys, 'monitoring', None)
+    if mon is None:
+        return None
+    return tuple(mon.get_tool(i) for i in range(6))
+
+
 def global_state():
     import traceback as tb
     import warnings
+    by = _bystander('get')
     return {
+        # a thread that was alive before the run and still is afterwards
+        'other_thread_trace': by[0],
+        'other_thread_profile': by[1],
+        'monitoring_tools': _monitoring_tools(),
         'gc_threshold': gc.get_threshold(),
         'gc_debug': gc.get_debug(),
         'tb_format_exception': id(tb.format_exception),
@@ -424,6 +461,15 @@ def run_world(spec, argv, child_hook=None, warnings=None, probe=True,
             sys.setprofile(hard[7])
             _real_threading.settrace(None)
             _real_threading.setprofile(None)
+            _bystander('reset')
+            mon = getattr(sys, 'monitoring', None)
+            if mon is not None and res.state_before['monitoring_tools'] != res.state_after['monitoring_tools']:
+                for i, (a, b) in enumerate(zip(res.state_before['monitoring_tools'], res.state_after['monitoring_tools'])):
+                    if a is None and b is not None:
+                        try:
+                            mon.free_tool_id(i)
+                        except Exception:
+                            pass
         R.subprocess, R.threading, R.time = saved_names
         sys.path[:] = saved_syspath
         # the Logging feature adds a NullHandler per run and never removes it
